@@ -68,6 +68,8 @@ def cmd_line(c):
         return "%s %s" % (op, c["s"])
     if op == "policy":
         return "policy %s %s" % (c["s"], c["v"])
+    if op == "renew":
+        return "renew %s %s" % (c["p"], c["s"])
     if op in ("disp", "flush"):
         return "%s %s" % (op, c["p"])
     if op == "adv":
@@ -106,6 +108,8 @@ def parse_blocks(blocks):
                 n = l.split()[1]
                 if n not in o["dead"]:
                     o["dead"].append(n)
+            elif l.startswith("probe renew "):
+                o["renew"] = True
             elif l.startswith("ret "):
                 o["ret"] = l.split()[1]
         o["live"] = live
@@ -533,6 +537,24 @@ def directed():
     return out
 
 
+def renew_scripts():
+    """The output refuses a new flow definition and the probe answers need_output by dropping the refused sink
+    and connecting a brand new one (allocated after the old one is gone): the buffer in hand and the next ones
+    must reach the new sink.  One-to-one kinds, a chain, and a holder."""
+    out = []
+    for k in SYNC:
+        b = lambda i, size=3: mkbuf(i, size if k != "skip" else 5, "1+2" if k != "skip" else "2+3",
+                                    sys_=("-", 0) if k == "nodemux" else ("pts", 40), prog=("-", 0) if k == "nodemux" else ("pts", 40))
+        cmds = [C("new", p="p0", k=k)] + fixed_opts(k) + [C("sink", s="s0"), C("out", p="p0", t="s0"), C("setfd", p="p0", f="A"), b(1),
+                C("policy", s="s0", v="reject"), C("setfd", p="p0", f="B"), C("renew", p="p0", s="s1"), b(2), b(3),
+                C("unblock", s="s1")]
+        for _ in range(2):
+            cmds += [C("provall", s="s1")] * 2 + [C("adv", t=100000)]
+        cmds += [C("drained"), C("rel", n="p0"), C("rel", n="s1")]
+        out.append(Exe(cmds, "directed renew " + k))
+    return out
+
+
 def isolate(ctx, binp, e, ci):
     """Is the rejected input rejected by one of the pipe kinds alone?"""
     c = e.cmds[ci]
@@ -625,7 +647,7 @@ def behaviour_guard(behs):
                 dead += 1
             if c["op"] == "disp":
                 rv.add(r["ret"])
-    need_ops = {"new", "sink", "sub", "setfd", "out", "in", "opt", "block", "unblock", "policy", "disp", "adv", "provall", "flush", "rel"}
+    need_ops = {"new", "sink", "sub", "setfd", "out", "in", "opt", "block", "unblock", "policy", "disp", "adv", "provall", "flush", "rel", "renew"}
     need_kinds = set(SYNC) | set(HOLD) | {"dup", "null"}
     miss = sorted(need_ops - ops) + sorted(need_kinds - kinds)
     if miss or not held or not dead or rv != {"0", "-1"}:
@@ -836,8 +858,13 @@ def run(ctx):
     dbg("at: # ---- 3. code -> spec")
     # ---- 3. code -> spec
     rng = vlib.Rng(ctx.seed)
-    dire = directed()
+    dire = directed() + renew_scripts()
     execute(ctx, binp, dire, jobs=8)
+    # vacuity: in the renew scripts the probe did replace the refused sink
+    for e in dire:
+        if e.source.startswith("directed renew") and e.obs is not None and not e.crash:
+            if not any(o.get("renew") for o in e.obs):      # (what the new sink then receives is the verdict's business)
+                raise vlib.ToolError("vacuity: %s: the probe never replaced the sink (%s)" % (e.source, e.lines()))
     judge(ctx, binp, dire, validate_pool(ctx, dire, "dir", jobs=4))
     # executions that would only repeat a defect already reported on a single pipe are not validated again
     found = [v[0] for v in ctx.violations] + [k for k, _ in ctx.known_hits]
